@@ -2378,8 +2378,12 @@ def distributed_shampoo(
       m1_scale_shape_and_dtype = []
       m2_scale_shape_and_dtype = []
       if qdtype != jnp.float32:
-        m1_scale_shape_and_dtype = [list(param.shape)[1:], qdtype]
-        m2_scale_shape_and_dtype = [list(param.shape)[1:], qdtype]
+        # Quantized momenta: the payload has the quantized dtype, the
+        # per-column bucket sizes are floats (see QuantizedValue.quantize).
+        m1_shape_and_dtype = [list(param.shape), qdtype]
+        m2_shape_and_dtype = [list(param.shape), qdtype]
+        m1_scale_shape_and_dtype = [list(param.shape)[1:], param.dtype]
+        m2_scale_shape_and_dtype = [list(param.shape)[1:], param.dtype]
 
       diagonal_statistics_shape_and_dtype = [list(param.shape), param.dtype]
       local_stats_flat.append(
